@@ -49,7 +49,7 @@ type BlockSpec struct {
 type EpochSpec struct {
 	Epoch        uint64
 	Seed         uint64
-	RootHash     int  // 0 sha2-256, 1 sha2-512, 2 sha2-512 truncated to RootTrunc bytes
+	RootHash     int  // 0 sha2-256, 1 sha2-512, 2 sha2-512 truncated to RootTrunc bytes, 3 identity (the root CID inlines the Epoch node)
 	RootTrunc    int  // 20..63
 	FnvHash      bool // legacy FNV-1a checksum in data frames instead of CRC64
 	NoHash       bool // frames without hash/index/total (oldest archives): single-frame payloads only
@@ -202,6 +202,14 @@ func Gen(t *rapid.T, o GenOpts) *EpochSpec {
 		}
 		le.Txs = append(le.Txs, tx)
 		ntx++
+	}
+	// a CAR header of more than 127 bytes (two-byte length prefix): identity root CID over an Epoch node with exactly
+	// two subsets, the first one addressed by a sha2-512 CID (longer roots do not fit into the index file names)
+	if len(s.Blocks) >= 2 && s.Epoch < 1000 && rapid.IntRange(0, 5).Draw(t, "longHeader") == 0 {
+		s.RootHash = 3
+		for i := range s.Blocks {
+			s.Blocks[i].SubsetBreak = i == 0
+		}
 	}
 	// the last block on the very last slot of the epoch (the last entry of every per-slot table)
 	if rapid.IntRange(0, 5).Draw(t, "tailOnLastSlot") == 0 && (s.Epoch > 0 || len(s.Blocks) > 2) {
